@@ -151,6 +151,11 @@ func genBuildInfo(t *simrt.Tape) *debug.BuildInfo {
 // with the independent decoder, and files written by the independent encoder are
 // opened and extended by the library.
 func scenarioC10(c *hlib.RunCtx) *hlib.Violation {
+	if c.Flag("family") == "encoded" {
+		// files written by the independent encoder (any metadata the layout
+		// admits, placement unlike the library's) are read identically by the library
+		return scenarioC06Encoded(c)
+	}
 	t := c.Tape
 	start := baseTime(c)
 	w := newWorld(c, start)
